@@ -895,6 +895,23 @@ def s_cross(draw, resampling="nearest", far_apart=False):
     return case
 
 
+@st.composite
+def s_cross_corner(draw):
+    """Different CRSs, a small source in the empty corner of a rotated destination's bounding box: the rasters do not
+    overlap although their bounding boxes (in either CRS and in lon/lat) do."""
+    case = draw(s_cross())
+    xs, xd = case["xsrc"], case["xdst"]
+    xs["shape"] = [draw(st.integers(1, 6)), draw(st.integers(1, 6))]
+    xd["shape"] = [draw(st.integers(16, 40)), draw(st.integers(16, 40))]
+    xd["res_m"] = xs["res_m"] * draw(st.sampled_from([1.0, 1.0, 2.0, 0.5]))
+    xd["rot"] = draw(st.sampled_from([45.0, 45.0, 30.0, 60.0, 135.0, 40.0, 50.0]))
+    xd["corner"] = [draw(st.sampled_from([1, -1])), draw(st.sampled_from([1, -1])), draw(st.sampled_from([0.8, 0.9, 0.95]))]
+    case["klass"] = "xcrs_corner"
+    case["place"] = "corner"
+    case.update(_common(draw, xs["shape"], xd["shape"], resampling="nearest", big_ok=False))
+    return case
+
+
 _PP_CACHE: dict = {}
 
 
@@ -941,6 +958,22 @@ def _cross_grids(case):
         lon_b = lon_a + xd["off"][0] * half_x / (M_PER_DEG * math.cos(math.radians(lat_a)))
         lat_b = lat_a + xd["off"][1] * half_y / M_PER_DEG
     case["dst"] = grid(xd["crs"], xd["shape"], xd["res_m"], xd["sign"], lon_b, lat_b)
+    if xd.get("corner"):
+        # destination turned by xd["rot"] degrees and moved so that the source centre sits in a corner of the
+        # destination's axis-aligned bounding box - the corner a rotated raster leaves empty
+        from affine import Affine
+
+        label = xd["crs"]
+        ny, nx = xd["shape"]
+        r = res_of(label, xd["res_m"], lat_a)
+        sx, sy = _to_crs_xy(label, lon_a, lat_a)
+        L = Affine.rotation(xd["rot"]) * Affine.scale(r * xd["sign"][0], r * xd["sign"][1])
+        cs = [L * (px - nx / 2, py - ny / 2) for px, py in ((0, 0), (nx, 0), (nx, ny), (0, ny))]
+        hx, hy = max(abs(c[0]) for c in cs), max(abs(c[1]) for c in cs)
+        k1, k2, f = xd["corner"]
+        cx, cy = sx - k1 * f * hx, sy - k2 * f * hy
+        A = Affine.translation(cx, cy) * L * Affine.translation(-nx / 2, -ny / 2)
+        case["dst"] = {"shape": xd["shape"], "affine": [A.a, A.b, A.c, A.d, A.e, A.f], "crs": label}
     return case
 
 
@@ -1112,8 +1145,8 @@ def build(chk: Check) -> None:
     chk.sub("disjoint_all_fill", o_disjoint,
             strategy=st.one_of(s_same_linear(places=["disjoint"]),
                                s_same_linear(places=["disjoint", "touching"], klasses=["scale_k", "mirror_xy", "shift_int"]),
-                               s_cross(far_apart=True)),
-            n={"quick": 160, "thorough": 3000}, budget_s={"quick": 30, "thorough": 90}, shrink=False)
+                               s_cross(far_apart=True), s_cross_corner()),
+            n={"quick": 200, "thorough": 4000}, budget_s={"quick": 30, "thorough": 90}, shrink=False)
     chk.sub("joint_compute", o_joint, strategy=s_joint(), n={"quick": 150, "thorough": 4000}, budget_s={"quick": 40, "thorough": 200}, shrink=False)
     chk.sub("schedules", o_schedules,
             strategy=st.one_of(s_same_linear(places=["partial", "covers", "contained"]), s_same_rotated(), s_cross()).map(_multi_chunks),
